@@ -6,8 +6,8 @@
      the client's hello: exactly one, end-of-message framing, advertising exactly base:<selected>;
      the framing of the first RPC.                                                                   *)
 EXTENDS Naturals, Sequences, FiniteSets, TLC, Json
-VARIABLES adv, pref, layout, prefix, extra, sid, echo, emitted
-vars == <<adv, pref, layout, prefix, extra, sid, echo, emitted>>
+VARIABLES adv, pref, layout, prefix, extra, sid, echo, tail, emitted
+vars == <<adv, pref, layout, prefix, extra, sid, echo, tail, emitted>>
 
 Versions == {"1.0", "1.1"}
 Select(a, p) ==
@@ -18,17 +18,20 @@ Select(a, p) ==
 Layouts  == {"pretty", "oneline", "decl"}
 Prefixes == {"", "nc"}
 \* extra capability sets: none; ordinary; URNs that merely CONTAIN a base capability as a substring (must not count)
-Extras   == {"none", "ordinary", "lookalike"}
+\* "many": forty module capabilities - the hello is several times longer than the channel's prompt search depth
+Extras   == {"none", "ordinary", "lookalike", "many"}
+\* what the server writes behind the end-of-message delimiter of its hello: nothing, or a line feed
+Tails    == {"", "nl"}
 Sids     == {"", "7", "4294967295"}
 
 Init == /\ adv \in SUBSET Versions /\ pref \in {"none", "1.0", "1.1"}
-        /\ layout \in Layouts /\ prefix \in Prefixes /\ extra \in Extras /\ sid \in Sids /\ echo \in BOOLEAN
+        /\ layout \in Layouts /\ prefix \in Prefixes /\ extra \in Extras /\ sid \in Sids /\ echo \in BOOLEAN /\ tail \in Tails
         /\ emitted = FALSE
 Sel == Select(adv, pref)
 Scn == [adv10 |-> "1.0" \in adv, adv11 |-> "1.1" \in adv,
-        pref |-> pref, layout |-> layout, prefix |-> prefix, extra |-> extra, sid |-> sid, echo |-> echo,
+        pref |-> pref, layout |-> layout, prefix |-> prefix, extra |-> extra, sid |-> sid, echo |-> echo, tail |-> tail,
         class |-> IF Sel = "error" THEN "netconf" ELSE "ok", selected |-> IF Sel = "error" THEN "" ELSE Sel]
-Next == ~emitted /\ emitted' = TRUE /\ PrintT("SCN " \o ToJson(Scn)) /\ UNCHANGED <<adv, pref, layout, prefix, extra, sid, echo>>
+Next == ~emitted /\ emitted' = TRUE /\ PrintT("SCN " \o ToJson(Scn)) /\ UNCHANGED <<adv, pref, layout, prefix, extra, sid, echo, tail>>
 Spec == Init /\ [][Next]_vars
 
 \* the table, as the property states it
